@@ -168,6 +168,34 @@ func (l *Lab) CheckAll(res OpResult) []Finding {
 				}
 				l.DB.TakeGetFails()
 			}
+		case StPending:
+			// A committed candidate that is not finalized yet: the database claims it (Commit
+			// returned), so it must read back with exactly its own contents - the proposer goes on
+			// executing on it and storage sync serves it. (The incomplete root of a checkpoint
+			// restore in progress is exempt.)
+			if l.M.MPVersion != 0 || ri.Broken {
+				continue
+			}
+			l.DB.TakeGetFails()
+			rr := ReadRoot(l.DB, root, ri.Content, 1)
+			l.Stats["reads.pending"]++
+			l.DB.TakeGetFails()
+			if !rr.OK() && l.Backend == Badger {
+				// The hashed backend's listed findings (nodes shared between roots deleted by
+				// Finalize / Prune) break candidates built on the damaged parent too: the same
+				// classifier as for finalized roots attributes them.
+				out = append(out, l.classifyBrokenRoot(res, opName, ri, rr)...)
+			} else if !rr.OK() {
+				ri.Broken = true
+				sym := "the read-back fails with " + rr.ErrClass + " (" + rr.Err + ")"
+				if rr.Mismatch != "" {
+					sym = "the read-back returns foreign contents without an error (" + rr.Mismatch + ")"
+				}
+				out = append(out, Finding{Signature: fmt.Sprintf("c06/%s/%s/pending-candidate-not-readable-with-its-own-contents", l.Backend, stageOf(op)),
+					What: fmt.Sprintf("candidate %s was committed and is not finalized or discarded yet (HasRoot=%v), but %s", ri, has, sym),
+					Detail: map[string]any{"root": ri.String(), "content_pairs": len(ri.Content), "backend": l.Backend,
+						"after_op": fmt.Sprintf("%d:%s", res.Idx, op.String()), "read_error": rr.Err, "mismatch": rr.Mismatch}})
+			}
 		case StDiscarded, StIntermediate:
 			// Either absent (HasRoot=false or ErrRootNotFound on access) or readable with exactly its own contents.
 			l.DB.TakeGetFails()
